@@ -357,12 +357,22 @@ package rules
 
 // lookups read the published index under the read lock, which is released on every way out
 //@ func (*repository).FindRule
-//@   props C07 C02
+//@   props C07 C02 C08
 //@   ensures tfind.n == old(tfind.n) + 1 && req.n > old(req.n)
 //@   ensures tfind.ret1[old(tfind.n)] != nil && r.dr != nil ==> ret1 == nil && ret0 == iface(r.dr)
 //@   ensures tfind.ret1[old(tfind.n)] != nil && r.dr == nil ==> ret0 == nil && ret1 != nil && Is(ret1, heimdall.ErrNoRuleFound)
 //@   ensures tfind.ret1[old(tfind.n)] == nil ==> ret1 == nil
-//@   assert at call Find#1@950e34fc.1: callarg1 == ite(len(req.ret0[req.n - 1].URL.URL.RawPath) != 0, req.ret0[req.n - 1].URL.URL.RawPath, req.ret0[req.n - 1].URL.URL.Path)
+//@   assert at call Find#1: callarg1 == normUnreserved(ite(len(req.ret0[req.n - 1].URL.URL.RawPath) != 0, req.ret0[req.n - 1].URL.URL.RawPath, req.ret0[req.n - 1].URL.URL.Path))
 //@   assert at store Captures#1@bd941b9d.1: stored == tfind.ret0[tfind.n - 1].Parameters
 //@   ensures mrunlock.n == old(mrunlock.n) + 1 && mrlock.n == old(mrlock.n) + 1
 //@   assert at call Find#1@950e34fc.1: callarg0 == r.index && mrlock.n == old(mrlock.n) + 1 && mrlock.arg0[old(mrlock.n)] == &r.rulesTreeMutex && mrunlock.n == old(mrunlock.n)
+
+// C08: "percent-encoding unreserved characters of a request path changes not which rule matches": the
+// lookup key is the request's escaped path with every percent-encoded unreserved character (letters,
+// digits, - . _ ~) replaced by the character itself (RFC 3986, 6.2.2.2); all other escapes - %2F in
+// particular - stay as they are, so decoding the captured segments later gives what it gave before.
+//@ spec normUnreserved(s string) string
+//@ func normalizeUnreserved
+//@   props C08
+//@   pure
+//@   defines normUnreserved(value)
